@@ -11,6 +11,7 @@ import Driver.Price
 import Driver.Multi
 import Driver.Containers
 import Driver.Effects
+import Driver.Pabulib
 open Pabu Pabu.Driver
 
 def dispatch (line : String) : String :=
@@ -35,6 +36,7 @@ def dispatch (line : String) : String :=
     | "multi" => cmdMulti a
     | "ops" => cmdOps a
     | "effects" => cmdEffects a
+    | "pabulib" => cmdPabulib a
     | _ => "bad-op"
 
 partial def loop (h : IO.FS.Stream) (out : IO.FS.Stream) : IO Unit := do
